@@ -3,6 +3,8 @@
    development, with Print Assumptions beneath it. *)
 From Coq Require Import List.
 From Tawazi Require Import Graph Sched SchedInv.
+From Tawazi Require Reconf ReconfFacts.
+From Coq Require Import ZArith.
 Import ListNotations.
 
 (* in every reachable scheduler state: in-flight thread + async-thread nodes never exceed
@@ -39,3 +41,17 @@ Example C04_nonvacuous :
       [LPick 0; LActive 0 true; LSubmit KC 0; LPick 1; LActive 1 true; LSubmit KA 1] = Some s
     /\ length (conc s) + length (asyn s) = 2.
 Proof. eexists. split; [vm_compute; reflexivity | reflexivity]. Qed.
+
+(* "every configuration": no sequence of config_from_dict / _yaml / _json steps (raising ones included) ever
+   changes the resource a node was declared with *)
+Theorem C04_reconfiguration_keeps_resources (nodes : list nat) (tagged : nat -> list nat) (cs : list Reconf.cstep) (st : Reconf.cstate) (n : nat) :
+  Reconf.a_res (Reconf.s_attr (Reconf.run nodes tagged st cs) n) = Reconf.a_res (Reconf.s_attr st n).
+Proof. exact (ReconfFacts.run_res nodes tagged cs st n). Qed.
+Print Assumptions C04_reconfiguration_keeps_resources.
+
+(* the limit in force after a history of reconfigurations is the one of the last accepted step that names it *)
+Theorem C04_reconfiguration_last_max_concurrency (nodes : list nat) (tagged : nat -> list nat) (cs : list Reconf.cstep) (c : Reconf.cstep) (st st' : Reconf.cstate) (m : Z) :
+  Reconf.step nodes tagged (Reconf.run nodes tagged st cs) c = Some st' -> Reconf.c_max c = Some m ->
+  Reconf.s_maxc (Reconf.run nodes tagged st (cs ++ [c])) = m.
+Proof. exact (ReconfFacts.run_last_max nodes tagged cs c st st' m). Qed.
+Print Assumptions C04_reconfiguration_last_max_concurrency.
